@@ -67,6 +67,23 @@ theorem yielded_unordered {α β} (f : α → β) (data : List α) (k : Nat) (hk
     yielded f data k order = (order.map (fun i => (((chunking data k)[i]?).getD []).map f)).flatten := by
   first | exact WindVerif.Pool.yielded_unordered .. | (apply WindVerif.Pool.yielded_unordered <;> assumption)
 
+/-- the property at the level of values: when the consumer of an ordered `imap` over `data` (cut into chunks of `k`) has
+left the result loop — in any reachable state of any configuration, i.e. under every interleaving — what the caller
+received is exactly `data.map f`; for `imap_unordered` it is a permutation of `data.map f` with the order inside each chunk
+kept -/
+theorem imap_values {α β} (f : α → β) (data : List α) (k : Nat) (hk : 0 < k)
+    (cfg : Cfg) (hf : NoFaults cfg) (s : St) (h : Reach cfg s) (c : Call) (hc : s.cur = some c)
+    (hp : postLoop s = true) (hchunks : c.chunks = (chunking data k).length) :
+    (c.ordered = true → yielded f data k (curOut s) = data.map f) ∧
+    (yielded f data k (curOut s)).Perm (data.map f) := by
+  have hres := WindVerif.Pool.imap_result cfg hf s h c hc hp
+  refine ⟨?_, ?_⟩
+  · intro ho
+    rw [hres.2.1 ho, hchunks]
+    exact WindVerif.Pool.yielded_ordered f data k hk
+  · have hperm : (curOut s).Perm (List.range (chunking data k).length) := hchunks ▸ hres.1
+    exact (WindVerif.Pool.yielded_unordered f data k hk (curOut s) hperm).1
+
 /-- non-vacuity: the consumer-first schedule that exposed D15 on the unrepaired code reaches the loop with the flags set -/
 example : ((run (init ⟨1, none, none, false, none, false, [⟨1, true⟩], [], []⟩) [.c, .c, .c, .c, .c, .c]).map
     (fun s => (s.sending, s.dataCnt, s.cpc))) = some (true, 0, .qsize1) := by decide
